@@ -6,6 +6,7 @@ evaluated on the implementation's output.
 import X86Model.Driver.Proto
 import X86Model.Model.Gdt
 import X86Model.Spec.Descriptor
+import X86Model.Spec.GdtTable
 
 namespace X86.Driver
 open X86 X86.Spec
@@ -88,6 +89,138 @@ def handleC15 : Handler := fun _cfg op a impl =>
   | "dtp_bytes", [limit, base] =>
     some (eqSpec (natToks (DescriptorTablePointer.bytes limit base))
       (natToks (encodeDtp limit base)) impl)
+  | _, _ => none
+
+/-! ### C14 -/
+
+def fmtR16 (r : R (BitVec 16)) : String :=
+  match r with | .ok v => toString v.toNat | .panic => "X"
+
+def fmtEntries (r : R (List (BitVec 64))) : List String :=
+  match r with
+  | .ok l => toString l.length :: l.map (fun w => toString w.toNat)
+  | .panic => ["X"]
+
+/-- Length of the common prefix of two lists. -/
+def commonPrefix : List (BitVec 64) → List (BitVec 64) → Nat
+  | a :: as, b :: bs => if a == b then commonPrefix as bs + 1 else 0
+  | _, _ => 0
+
+/-- Decode `(kind, lo, hi)` triples: kind 0 = user segment (`hi` ignored), 1 = system segment. -/
+def decodeDescs : List Nat → Option (List (Descriptor × Desc))
+  | [] => some []
+  | k :: lo :: hi :: rest =>
+    match decodeDescs rest with
+    | none => none
+    | some tl =>
+      if k == 0 then some ((.user (bv64 lo), .user (bv64 lo)) :: tl)
+      else if k == 1 then some ((.system (bv64 lo) (bv64 hi), .system (bv64 lo) (bv64 hi)) :: tl)
+      else none
+  | _ => none
+
+/-- Model side of `gdt_seq`: per append `s <sel>` or `p`, then `limit len prefix T tail…`
+describing `entries()` after the call relative to `entries()` before it. -/
+def modelGdtSteps (cfg : Cfg) (g : Gdt) : List Descriptor → List String
+  | [] => []
+  | d :: rest =>
+    let prev := match g.entries with | .ok l => l | .panic => []
+    let (g', r) := g.append d
+    let cur := match g'.entries with | .ok l => l | .panic => []
+    let pre := commonPrefix prev cur
+    let tail := cur.drop pre
+    let head := match r with | .ok sel => ["s", toString sel.toNat] | .panic => ["p"]
+    head ++ [fmtR16 (g'.limit cfg), toString cur.length, toString pre, toString tail.length]
+      ++ tail.map (fun w => toString w.toNat) ++ modelGdtSteps cfg g' rest
+
+def takeNats : Nat → List String → Option (List Nat × List String)
+  | 0, toks => some ([], toks)
+  | n + 1, t :: toks =>
+    match t.toNat?, takeNats n toks with
+    | some v, some (vs, rest) => some (v :: vs, rest)
+    | _, _ => none
+  | _ + 1, [] => none
+
+/-- Oracle side of `gdt_seq`: the implementation's per-step output against the spec's table
+(`Spec.gdtAppend`): accepted ⇒ `s`, selector decodes to (first slot, TI = 0, RPL = DPL), entries =
+old entries ++ descriptor words, limit = 8·len − 1; rejected ⇒ `p` and entries/limit unchanged. -/
+def oracleGdtSteps (max : Nat) (s : List (BitVec 64)) : List Desc → List String → Bool
+  | [], [] => true
+  | [], _ :: _ => false
+  | d :: ds, toks =>
+    let parseObs (toks : List String) : Option (Nat × List (BitVec 64) × List String) :=
+      match takeNats 4 toks with
+      | some ([limit, len, pre, t], rest) =>
+        match takeNats t rest with
+        | some (tail, rest') =>
+          let cur := s.take pre ++ tail.map bv64
+          if cur.length == len then some (limit, cur, rest') else none
+        | none => none
+      | _ => none
+    match gdtAppend max s d, toks with
+    | some (s', sf), "s" :: sel :: toks' =>
+      match sel.toNat?, parseObs toks' with
+      | some sv, some (limit, cur, rest) =>
+        sv < 65536 && decide (decodeSel (BitVec.ofNat 16 sv) = sf) && cur == s' &&
+          limit == gdtLimit s'.length && oracleGdtSteps max s' ds rest
+      | _, _ => false
+    | none, "p" :: toks' =>
+      match parseObs toks' with
+      | some (limit, cur, rest) =>
+        cur == s && limit == gdtLimit s.length && oracleGdtSteps max s ds rest
+      | none => false
+    | _, _ => false
+
+/-- Initial table of a `gdt_seq`/`gdt_raw`/`gdt_empty` line: model and spec. -/
+def gdtInit (max : Nat) (raw : Option (List (BitVec 64))) : R Gdt × Option (List (BitVec 64)) :=
+  match raw with
+  | none => (Gdt.empty max, if capacityOk max then some gdtEmpty else none)
+  | some r => (Gdt.fromRawEntries max r, if rawOk max r then some r else none)
+
+def fmtInit (cfg : Cfg) (g : R Gdt) : List String :=
+  match g with
+  | .panic => ["p"]
+  | .ok g => "i" :: fmtR16 (g.limit cfg) :: fmtEntries g.entries
+
+/-- Oracle for the initial observation `i <limit> <len> e…` / `p`; returns the remaining tokens. -/
+def oracleInit (spec : Option (List (BitVec 64))) (toks : List String) : Option (List String) :=
+  match spec, toks with
+  | none, "p" :: rest => some rest
+  | some s, "i" :: limit :: len :: rest =>
+    match limit.toNat?, len.toNat? with
+    | some l, some n =>
+      match takeNats n rest with
+      | some (es, rest') =>
+        if n == s.length && es.map bv64 == s && l == gdtLimit s.length then some rest' else none
+      | none => none
+    | _, _ => none
+  | _, _ => none
+
+def handleC14 : Handler := fun cfg op a impl =>
+  match op, a.toList with
+  | "gdt_empty", [max] =>
+    let (g, spec) := gdtInit max none
+    some (withOracle (fmtInit cfg g) (oracleInit spec impl == some []))
+  | "gdt_raw", max :: n :: raw =>
+    if raw.length != n then none else
+    let (g, spec) := gdtInit max (some (raw.map bv64))
+    some (withOracle (fmtInit cfg g) (oracleInit spec impl == some []))
+  | "gdt_seq", max :: nraw :: rest =>
+    let raw := rest.take nraw
+    match rest.drop nraw with
+    | n :: steps =>
+      match decodeDescs steps with
+      | none => none
+      | some ds =>
+        if ds.length != n || raw.length != nraw then none else
+        let (g, spec) := gdtInit max (if nraw == 0 then none else some (raw.map bv64))
+        let model := fmtInit cfg g ++
+          (match g with | .ok g => modelGdtSteps cfg g (ds.map (·.1)) | .panic => [])
+        let ok := match oracleInit spec impl, spec with
+          | some rest', some s => oracleGdtSteps max s (ds.map (·.2)) rest'
+          | some rest', none => rest' == []
+          | none, _ => false
+        some (withOracle model ok)
+    | [] => none
   | _, _ => none
 
 end X86.Driver
